@@ -147,8 +147,8 @@ def verdict(case, got, answers):
                 why = "no separator with I<=Z<=R exists" if m["exists"] == "F" else "I-minimal separators are " + m["mins"]
                 res.append(("unsound" if m["exists"] == "F" else "not-minimal", {"call": "min"},
                             "returned %s which is not an I-minimal separator (%s)" % (r, why)))
-        if not res and r != m["ans"]:
-            res.append(("corr:witness", {"call": "min"}, "implementation %s model %s" % (r, m["ans"])))
+        # the separator itself is a witness: it was validated above and is NOT compared with the model's
+        # (agreement is only counted in the evidence: min:witness-equals-model)
     for Zs, a in zip(list(got["ismin"]), answers[k:]):
         m = kv(a)
         r = got["ismin"][Zs]
@@ -167,7 +167,8 @@ def verdict(case, got, answers):
             elif r not in ("F", "err:NetworkXError"):
                 res.append(("error", call, "is_minimal_m_separator(Z=%s) raised %s" % (Zs, r)))
             elif (r == "err:NetworkXError") != (m["model"] == "err:nx"):
-                res.append(("corr:ismin", call, "implementation %s model %s" % (r, m["model"])))
+                # raising vs returning False for I not<= Z / Z not<= R is not determined by the property
+                res.append(("note:raise-differs-from-model", call, "implementation %s model %s" % (r, m["model"])))
     if got.get("mutated"):
         res.append(("mutation", {"call": case.get("call", "min")}, "the call changed G"))
     return res
@@ -178,7 +179,7 @@ def fails(case, drv, kinds=None):
         return False
     got = impl(case)
     ans = [drv.ask(l) for l in case_lines(case, got)]
-    v = [r for r in verdict(case, got, ans) if not r[0].startswith("corr")]
+    v = [r for r in verdict(case, got, ans) if not r[0].startswith(("corr", "note"))]
     if kinds:
         v = [r for r in v if r[0] in kinds]
     return bool(v)
@@ -328,8 +329,8 @@ def run(ctx):
                "labels int / multi-character str / tuple, node arguments passed as fresh equal objects, default i/r. "
                "non-trivial = x,y non-adjacent and (no separator exists or some I-minimal separator is larger than I)")
     ev.assumptions = ["inputs inside the quantifier: C01 domain, x != y, I <= R <= V - {x,y}",
-                      "completeness/minimality of the *model* rest on T2 + T7 (hypotheses of the conditional theorems); "
-                      "the implementation is compared with the brute-force Lean decider on every generated input",
+                      "both sentences are proved for the model (C11.minimalMSep_spec, C11.isMinimalMSep_iff); model = code is "
+                      "what this run samples: the implementation is compared with the proved Lean deciders on every generated input",
                       "label->index bijection and canonicalisation in harness/common.py"]
     cases = list(gen_cases(ctx))
     cases = [c for c in cases if in_quantifier(c)]
@@ -360,6 +361,9 @@ def run(ctx):
         ev.count("ismin:true", sum(1 for v in got.get("ismin", {}).values() if v == "T"))
         ev.case({k: v for k, v in case.items() if k != "Zs"}, nontrivial=nontriv, sample_every=5000)
         for kind, call, detail in verdict(case, got, a):
+            if kind.startswith("note"):
+                ev.count(kind)
+                continue
             (corr if kind.startswith("corr") else bad).append((case, kind, call, detail))
     ev.traces = sum(1 + len(g.get("ismin", {})) for g in gots)
     ev.extra["exhaustive_part"] = "graphs<=3 nodes: everything; 4 nodes: pair (0,1), all I<=R, all Z (quick: a third of the 5-state graphs)"
@@ -406,7 +410,7 @@ def replay(ctx, payload):
     print("implementation:", got)
     for l, a in zip(ls, ans):
         print("lean:", l, "->", a)
-    v = [r for r in verdict(case, got, ans) if not r[0].startswith("corr")]
+    v = [r for r in verdict(case, got, ans) if not r[0].startswith(("corr", "note"))]
     for r in v:
         print("disagreement:", r[0], r[2])
     print("REPRODUCED" if v else "NOT-REPRODUCED")
